@@ -207,6 +207,11 @@ class X86:
             raise MemViolation("oob", "store of %d bytes at %s+%d (size %d)" % (size, o.name, p.off, o.size))
         for co in [co for co, (cs, _) in o.cells.items() if co < p.off + size and co + cs > p.off and co != p.off]:
             raise ExecError("unsupported", "overlapping store")
+        if isinstance(val, tuple) and val and val[0] == "INIT" and o is not self.stack:
+            # the caller's value of a callee-saved register (which the routine never computed) is written into an operand or the result: whatever the
+            # final value of that word is on this path, it is not a function of the operands unless the word is overwritten later; reported where it
+            # is read back (result comparison) would lose the reason, so it is reported here
+            raise MemViolation("caller-register-leak", "the caller's %%%s (a callee-saved register the routine did not set) is stored into %s+%d" % (val[1], o.name, p.off))
         o.cells[p.off] = (size, val)
         o.written = True
 
